@@ -37,6 +37,8 @@ def det(a: PolyLike) -> ndpoly:
     assert a.shape[-2] == a.shape[-1], a.shape
     dims = a.shape[-1]
     index = (slice(None),) * (a.ndim - 2)
+    if dims == 1:
+        return a[index + (0, 0)]
     if dims == 2:
         return (
             a[index + (0, 0)] * a[index + (1, 1)]
@@ -47,5 +49,8 @@ def det(a: PolyLike) -> ndpoly:
     for idx in range(dims):
         idx0 = index + (0, idx)
         idx1 = index + (slice(1, None), (r + idx) % dims)
-        out = out + a[idx0] * det(a[idx1])
+        # the minor's columns are a cyclic rotation of the natural order,
+        # which together with the cofactor sign gives (-1)**(idx*(dims-1))
+        sign = -1 if (idx * (dims - 1)) % 2 else 1
+        out = out + sign * a[idx0] * det(a[idx1])
     return out
